@@ -155,7 +155,18 @@ def run(chk):
     for l in loops:
         body = l["body"]
         sel = [i for i in body.get("c", []) if i.get("k") == "IfStmt"]
-        oks = bool(sel) and txt(strip(sel[0]["cond"])).replace("state.", "") == "cache_best_particle_inside[num_particles]"
+
+        def reads_swarm_flag(e, depth=0):
+            """the expression reads the swarm-best flag (the member itself, or a local of the loop body initialised from it)"""
+            for q in [e] + list(walk(e)):
+                if q.get("k") == "MemberExpr" and short(q.get("field") or "") == "cache_best_particle_inside":
+                    return True
+                if q.get("k") == "DeclRefExpr" and depth < 2:
+                    d = fn.locals().get(q.get("did"))
+                    if d is not None and any(x is d for x in walk(body)) and d.get("c") and reads_swarm_flag(d["c"][0], depth + 1):
+                        return True
+            return False
+        oks = bool(sel) and reads_swarm_flag(sel[0]["cond"])
         chk.ob("C20-D4.loop", fn.name, "social/cognitive branch re-evaluates 'swarm best exists' every iteration", oks, fn.loc(sel[0]) if sel else fn.loc(l),
                txt(sel[0]["cond"]) if sel else "no branch on the swarm-best flag inside the loop")
         evs = [c for c in walk(body, into_lambda=False) if c.get("k") == "CXXOperatorCallExpr" and c.get("op") == "()" and var_of(c["c"][1]) == fcd["did"]]
